@@ -1,0 +1,31 @@
+//go:build verif
+
+package workqueue
+
+// Contracts checked by /verif/govc (comment-only file; build tag verif).
+// The instant of r.last is the "grant": the instant of the last scheduled run.
+// clock() is the ghost clock after the last clock read of the call, so
+// clock()+result is the instant at which the delaying queue will run the item.
+
+//@ func (*reloadHAProxy).When
+//@   props C13
+//@   requires  cfg:      r.interval >= 0
+//@   requires  unlocked: !held(r.mu)
+//@   modifies  r.mu, r.last, clock()
+//@   ensures   spacing:  clock() + result == instant(old(r.last)) || clock() + result >= instant(old(r.last)) + r.interval
+//@   ensures   memory:   instant(r.last) == max(instant(old(r.last)), clock() + result)
+//@   ensures   delay:    result <= max(0, instant(old(r.last)) + r.interval - clock())
+//@   ensures   unlocked: !held(r.mu)
+//@ end
+
+//@ func (*ingressReconciler).When
+//@   props C13
+//@   requires  cfg:      r.delta >= 0 && r.wait >= 0
+//@   requires  unlocked: !held(r.mu)
+//@   modifies  r.mu, r.last, clock()
+//@   ensures   nonneg:   result >= 0
+//@   ensures   spacing:  clock() + result == instant(old(r.last)) || clock() + result >= instant(old(r.last)) + r.delta
+//@   ensures   memory:   instant(r.last) == max(instant(old(r.last)), clock() + result)
+//@   ensures   delay:    result <= max(r.wait, max(instant(old(r.last)) - clock(), instant(old(r.last)) + r.delta - clock()))
+//@   ensures   unlocked: !held(r.mu)
+//@ end
